@@ -172,7 +172,8 @@ class Term(ItemSequenceT[T]):
                 else:
                     items = sorted(((elem1, exp1), (elem2, exp2)),
                                    key=lambda item:
-                                   self.norm_sort_key(item[0]))
+                                   (self.norm_sort_key(item[0]),
+                                    str(item[0])))
                     return tuple(_filter_items(items))
             # third most relevant case: non-numeric + numeric element
             if isinstance(elem2, Rational) and \
@@ -231,6 +232,10 @@ class Term(ItemSequenceT[T]):
                     if not done:
                         accum_items.append(item)
                 accum_items = [item for item in accum_items if item[1] != 0]
+                if not keep_item_order:
+                    # elements with the same sort key which can not be
+                    # merged need a fixed order, too
+                    accum_items.sort(key=lambda item: str(item[0]))
                 res_items.extend(accum_items)
             else:  # numerical elements
                 group_it = cast(Iterator[Tuple[int, Tuple[Rational, int]]],
